@@ -14,6 +14,25 @@ from .spec import Disp, derived, feasible, reach, rng, imp, zmax
 LEMMAS = {}
 
 
+def after_call(con, args, tag="C"):
+    """What a caller knows after a normal return of `con`: pre-condition, none of the
+    exceptional conditions, the frame (exactly as the verifier havocs it) and the
+    post-condition.  -> (h0, h1, facts)"""
+    from pyvc.engine import Ctx, Engine, State
+    h0 = Heap(tag=tag + "0")
+    st = State({}, h0, [h0.alloc > 0])
+    c0 = Ctx(None, h0, h0, args)
+    for _, p in con.requires(c0):
+        st.assume(p)
+    for _, _, w in con.raises(c0):
+        st.assume(z3.Not(w))
+    eng = Engine(None, {}, {})
+    h1 = eng.havoc(st, con.modifies(c0), h0)
+    for _, p in con.ensures(Ctx(None, h0, h1, args)):
+        st.assume(p)
+    return h0, h1, list(st.pc)
+
+
 def lemma(name, properties=()):
     def deco(fn):
         fn.lemma_name = name
